@@ -38,6 +38,7 @@ struct CaseResult {
     std::string sample;
     std::map<std::string, uint64_t> extra; // mode-specific counters (residue, alt kinds, sched decisions, ...)
     int failing_alt = -1;
+    std::vector<uint64_t> step_hashes; // per-step digests (C19: first diverging step)
 };
 
 Case gen_case(const std::string &prop, const std::string &tier, uint64_t verif_seed, uint64_t index);
